@@ -5,7 +5,7 @@ import (
 )
 
 func init() {
-	Register(&Scenario{Prop: "C01", Name: "same-set-same-state", Run: scenC01, Weight: 1,
+	Register(&Scenario{Prop: "C01", Name: "same-set-same-state", Run: scenC01, SoftParks: true, Weight: 1,
 		Rule: "2-4 replicas (1-3 writers, rest observers) of a key-value, event-log or document database with per-replica ReplicationConcurrency in {1,2,32} and ReferenceCount in {1,2,64}; 4-14 (thorough 4-40) writes whose causal shape comes from partial replication between writers; entries reach replicas by announced heads, head exchange on join, manual Sync of (shuffled, duplicated) heads, clean restart or crash + Load(-1), under reorder/dup/drop/cut/heal, shuffled fetch completion and (1 run in 2) failing block fetches that are retried on a later announcement (1 run in 3: the first remote fetch of about half the entries fails, so ancestors arrive after their descendants); at every quiescent step every pair of replicas with equal entry sets must have equal log order and equal visible state; non-trivial = at least one compared pair held >=3 entries by >=2 authors (or a fork) and was compared at >=2 distinct sets"})
 }
 
